@@ -127,6 +127,11 @@ func checkC12(c *CheckCtx) error {
 			c.sample(map[string]any{"source": cfg, "sequence": cs, "note": sc.Note})
 		}
 	}
+	for _, h := range hugeDoc() {
+		// nothing of a call may stick to the package-level defaults other Configs are copied from
+		h.Tags = append(h.Tags, "also:C12")
+		scs = append(scs, h)
+	}
 	if err := c.runSeq(scs); err != nil {
 		return err
 	}
